@@ -48,6 +48,13 @@ def names(kmax):
     return out
 
 
+# names built from the absolute path of the jail itself ({J} is substituted per world): behind the
+# namespace prefix they are ordinary (deep) relative names inside the root, but any code path that
+# forgets to strip the prefix lands on the real absolute path next to the mail root
+ABS_NAMES = ["{J}/decoy/secret", "{J}/decoy", "/{J}/decoy/secret", "{J}/outside.txt", "{J}", "{J}/mail/a", "{J}/mail/../decoy/secret",
+             "{J}/decoy/secret/../secret"]
+
+
 def escapes(name: str) -> bool:
     """Independent resolution: one leading '/' is the namespace prefix; the rest is a relative
     path under the root.  Anything that normalises to the root itself, above it, or is
@@ -96,6 +103,19 @@ def commands(nm: bytes):
     ]
 
 
+def commands_twin_first(nm: bytes):
+    """Second order: the name's inside reading is created first, so that every later command finds a
+    mailbox under the stripped name -- and must then keep using that reading, not the raw string."""
+    m1 = msgs.make("x2")
+    return [
+        ("t-create", b"CREATE " + nm), ("t-append", b"APPEND " + nm + b" () " + imap_literal(m1)), ("t-select", b"SELECT " + nm),
+        ("t-store", b"STORE 1:* +FLAGS (\\Deleted)"), ("t-close", b"CLOSE"), ("t-status", b"STATUS " + nm + b" (MESSAGES UIDNEXT)"),
+        ("t-subscribe", b"SUBSCRIBE " + nm), ("t-unsubscribe", b"UNSUBSCRIBE " + nm), ("t-select-inbox", b"SELECT INBOX"),
+        ("t-copy", b"COPY 1 " + nm), ("t-delete", b"DELETE " + nm), ("t-list", b'LIST "" "*"'),
+        ("t-create2", b"CREATE " + nm), ("t-rename-from", b"RENAME " + nm + b" zz2"), ("t-list2", b'LIST "" "*"'),
+    ]
+
+
 def pattern_commands(name: str, how: str):
     out = []
     for pat in (name + "/*", name + "/%", name + "*", "*" if True else ""):
@@ -110,9 +130,10 @@ def work(unit):
     fails = []
     n_eval = 0
     outcomes = set()
-    for name, how in cases:
+    for name0, how in cases:
         w = World(tmpl)
         try:
+            name = name0.replace("{J}", str(w.jail))
             w.start()
             before = snapshot_tree(w.jail)
             before = {k: v for k, v in before.items() if not k.startswith("mail/") and k != "mail/"}
@@ -120,7 +141,7 @@ def work(unit):
             esc = escapes(name)
             nm = enc(name, how)
             tr = []
-            for label, cmd in commands(nm) + pattern_commands(name, how):
+            for label, cmd in commands(nm) + pattern_commands(name, how) + commands_twin_first(nm):
                 if s.task.done():
                     s = w.connect("A2" + label)
                 r, resps = s.do(cmd, horizon=10)
@@ -131,7 +152,7 @@ def work(unit):
 
                 def fail(rule, obs=None):
                     fails.append(Failure(PROP, rule, {"cmd": label, "shape": shape(name), "enc": how},
-                                         {"driver": "c09", "name": name, "enc": how}, None, obs, list(tr[-8:])))
+                                         {"driver": "c09", "name": name0, "enc": how}, None, obs, list(tr[-8:])))
 
                 if DECOY_TOKEN.encode() in out:
                     fail("C09.content-leak", out[:200].decode("latin-1"))
@@ -147,7 +168,8 @@ def work(unit):
                         fail("C09.outside-status", x.raw[:120].decode("latin-1"))
                 if escapes_any_reading(name) and r is not None and r.typ == "OK" and label in (
                         "select", "examine", "status", "subscribe", "unsubscribe", "copy", "append", "create", "rename-to",
-                        "rename-from", "move", "delete"):
+                        "rename-from", "move", "delete", "t-create", "t-append", "t-select", "t-status", "t-subscribe", "t-unsubscribe",
+                        "t-copy", "t-delete", "t-create2", "t-rename-from"):
                     fail("C09.outside-name-accepted", r.raw[:120].decode("latin-1"))
             w.loop.settle()
             after = snapshot_tree(w.jail)
@@ -155,13 +177,13 @@ def work(unit):
             if after != before:
                 diff = sorted(k for k in set(before) | set(after) if before.get(k) != after.get(k))
                 fails.append(Failure(PROP, "C09.outside-modified", {"shape": shape(name), "enc": how, "what": [d.split("/")[0] for d in diff][:2]},
-                                     {"driver": "c09", "name": name, "enc": how}, None, diff[:6], list(tr)))
+                                     {"driver": "c09", "name": name0, "enc": how}, None, diff[:6], list(tr)))
             for row in w.db_dump().get("mailboxes", []):
                 if escapes(row.get("name") or "x"):
                     if (row.get("name") or "") == "":
                         continue
                     fails.append(Failure(PROP, "C09.db-row-outside", {"shape": shape(name), "enc": how},
-                                         {"driver": "c09", "name": name, "enc": how}, None, row.get("name"), list(tr)))
+                                         {"driver": "c09", "name": name0, "enc": how}, None, row.get("name"), list(tr)))
         finally:
             w.close()
     return fails, n_eval, outcomes
@@ -174,6 +196,9 @@ def shape(name: str) -> str:
     elif name.startswith("/"):
         parts.add("slash")
     comps = name.strip("/").split("/")
+    if name.startswith("/") and len(comps) > 4:
+        parts.add("abs-twin")
+        comps = [c for c in comps if c in COMPONENTS]
     if ".." in comps:
         parts.add("dotdot")
     if "." in comps:
@@ -197,6 +222,9 @@ def run(tier, seed, jobs) -> Result:
             if tier == "quick" and how == "literal" and len(n.split("/")) > 2:
                 continue
             cases.append((n, how))
+    for n in ABS_NAMES:
+        for how in ("quoted", "literal"):
+            cases.append((n, how))
     units = [(tmpl, cases[i : i + 12]) for i in range(0, len(cases), 12)]
     units = seeded_order(units, seed)
     res = Result(level="exploration")
@@ -211,8 +239,9 @@ def run(tier, seed, jobs) -> Result:
         "evaluations": evals,
         "distinct_nontrivial": nesc,
         "rule": "every path of <=%d components over %r with prefixes %r, per encoding; non-trivial = its independent resolution leaves the mail root; "
-                "each (name, encoding) is run through 27 command positions in a fresh jail" % (kmax, COMPONENTS, PREFIXES),
+                "each (name, encoding) is run through 42 command positions (two orders: probing first / creating the inside reading first) in a fresh jail" % (kmax, COMPONENTS, PREFIXES),
         "names": len(cases),
+        "absolute_twin_names": ABS_NAMES,
         "distinct_outcomes": len(outcomes),
         "exhaustive": True,
         "samples": ["../decoy/secret", "//decoy", "a/../../decoy/secret", "/..", "inbox/../.."],
